@@ -208,7 +208,22 @@ class OSModel:
         import os as _os
         self.fs = fs
         self._cwd = cwd
-        self.path = _os.path
+        real = _os.path
+
+        class _Path:
+            """os.path with existence tests answered by the abstract file system"""
+            def __getattr__(self_, nm):
+                return getattr(real, nm)
+
+            def exists(self_, p):
+                return p in fs.existing
+
+            def isfile(self_, p):
+                return p in fs.existing and p not in fs.tempdirs
+
+            def isdir(self_, p):
+                return p in fs.tempdirs and p in fs.existing
+        self.path = _Path()
         self.environ = {}
 
     def getcwd(self):
